@@ -403,7 +403,9 @@ class Parser:
     def raise_indentation_error(self, msg: str) -> None:
         """Raise an indentation error."""
         last_token = self._tokenizer.diagnose()
-        args = (self.filename, last_token.start[0], last_token.start[1] + 1, last_token.line)
+        # the synthetic tokens at end of input carry no line; look the source line up instead
+        line = self._tokenizer.get_lines([last_token.start[0]])[0]
+        args = (self.filename, last_token.start[0], last_token.start[1] + 1, line)
         args += (last_token.end[0], last_token.end[1] + 1)  # type: ignore
         raise IndentationError(msg, args)
 
